@@ -23,6 +23,7 @@ ENTRY_NAMES = ["s.ms", "my prog.ms", "a#b.ms", "q'uote.ms", 'dq"x.ms', "é.ms", 
 def gen_cases(tier, seed):
     quick = tier == "quick"
     n = 0
+    yield from gen_twins(tier, seed)
     # (a) corpus, each entry under several environments
     entries = [e for e in pipeline.corpus_entries() if e not in pipeline.SLOW_OR_UNSTABLE]
     reps = 3 if quick else 12
@@ -80,7 +81,85 @@ def gen_cases(tier, seed):
             n += 1
 
 
+# ------------------------------------------------------------------ two processes at once
+
+def twin_project(mul, step, base, tag):
+    """A three-module project; two of these with the same file names and different constants live side by side."""
+    util = "export scale: fn(int) -> int = fn(q: int) -> int {\n\treturn q * %d\n}\n" % mul
+    shapes = ("import scale from util\n"
+              "export class Counter {\n\tn: int\n\tconstructor(self, n: int) {\n\t\tself.n = scale(n)\n\t}\n"
+              "\tfn bump(self) -> int {\n\t\tself.n += %d\n\t\treturn self.n\n\t}\n}\n"
+              "export base: int = %d\n" % (step, base))
+    main = ("import Counter, base from shapes\nc = Counter(2)\nprint c.bump()\nprint c.bump()\nprint base\nprint \"done %s\"\n" % tag)
+    expect = "%d\n%d\n%d\ndone %s\n" % (2 * mul + step, 2 * mul + 2 * step, base, tag)
+    return {"main.ms": main, "shapes.ms": shapes, "util.ms": util}, expect
+
+
+def gen_twins(tier, seed):
+    """Process A is stopped at its k-th open / read / write (any file, the shared temporary directory included); process B
+    then runs from start to end in the sibling directory; A goes on.  Neither may notice the other."""
+    n = 0
+    ks = range(1, 15) if tier == "quick" else range(1, 31)
+    for call in ("open", "write", "read"):
+        for k in ks:
+            for a_op, b_op in (("run", "run"), ("ce", "run"), ("run", "ce"), ("ce", "ce")):
+                rng = Rng(derive(seed, PROP, "twins", call, k, a_op, b_op))
+                yield {"prop": PROP, "id": "w%d" % n, "batch": "twins", "kind": "twins", "stall": {"call": call, "nth": k},
+                       "a_op": a_op, "b_op": b_op, "seed_a": rng.hexbytes(16), "seed_b": rng.hexbytes(16), "shared_tmp": True}
+                n += 1
+
+
+def run_twins(case):
+    fa, exp_a = twin_project(1, 1, 5, "a")
+    fb, exp_b = twin_project(100, 4, 96, "B")
+    files = {"pa/" + k: v for k, v in fa.items()}
+    files.update({"pb/" + k: v for k, v in fb.items()})
+    world = core.fresh_world(files, sub="tw")
+    procs = []
+
+    def op(which, kind, seed, during=None, rule=None):
+        """run, or compile+execute, of project `which`; `during`/`rule` apply to the first command"""
+        plan = {"seed": seed, "rules": [rule] if rule else []}
+        cwd = os.path.join(world, which)
+        if kind == "run":
+            p = core.run_cmd(cwd, ["run", "main.ms", "-q"], plan=plan, during=during)
+            procs.append(p)
+            return p
+        c = core.run_cmd(cwd, ["compile", "main.ms", "--quick"], plan=plan, during=during)
+        procs.append(c)
+        if c["rc"] != 0:
+            return c
+        p = core.run_cmd(cwd, ["execute", "main.mmm"], plan={"seed": seed, "rules": []})
+        procs.append(p)
+        return p
+
+    res = {}
+
+    def b_runs():
+        res["b"] = op("pb", case["b_op"], case["seed_b"])
+
+    rule = {"id": "st", "call": case["stall"]["call"], "pat": "*", "nth": str(case["stall"]["nth"]), "act": "stall"}
+    res["a"] = op("pa", case["a_op"], case["seed_a"], during=b_runs, rule=rule)
+    st = core.stats_of(procs, [[rule]] * len(procs))
+    st["hash_seeds"] = [case["seed_a"], case["seed_b"]]
+    st["shape"] = core.shape_hash("twins", case["stall"], case["a_op"], case["b_op"])
+    st["nontrivial"] = True
+    st["sample"] = {"stall": case["stall"], "a": case["a_op"], "b": case["b_op"]}
+    st["probes"] = {"second_process_ran_while_first_was_stopped": 1} if any(p.get("stalled") for p in procs) else {"stall_point_beyond_the_end_of_the_process": 1}
+    for who, exp in (("a", exp_a), ("b", exp_b)):
+        p = res.get(who)
+        if p is None or p["timeout"] or p["rc"] != 0 or core.text(p["out"]) != exp:
+            return {"ok": False, "class": "twin-interference", "stats": st,
+                    "msg": "project %s (run next to a same-named project, stopped at %s #%d) ended with rc=%s and printed %r, expected %r"
+                           % (who, case["stall"]["call"], case["stall"]["nth"], None if p is None else p["rc"],
+                              None if p is None else core.text(p["out"])[-200:], exp),
+                    "detail": {"files": files, "stderr": None if p is None else core.text(p["err"])[-1500:]}}
+    return {"ok": True, "stats": st}
+
+
 def run_case(case):
+    if case.get("kind") == "twins":
+        return run_twins(case)
     files, entry = pipeline.case_files(case)
     env = case["env"]
     dump = bool(case.get("same_seed"))
@@ -184,6 +263,13 @@ def run_case(case):
 
 
 def shrink(case):
+    if case.get("kind") == "twins":
+        for key in ("a_op", "b_op"):
+            if case[key] != "run":
+                c = copy.deepcopy(case)
+                c[key] = "run"
+                yield c
+        return
     yield from pipeline.shrink_env(case)
     yield from pipeline.shrink_program(case)
     if case.get("same_seed") is False:
